@@ -282,7 +282,10 @@ Definition path_value (bs : list N) : pres pvalue :=
   palt (pdo (r, v) <- pu64 bs; if not_float_tail r then POk r (PVNum (NUInt (Z.to_N v))) else PErr) (fun _ =>
   palt (pdo (r, v) <- pi64 bs; if not_float_tail r then POk r (PVNum (NInt v)) else PErr) (fun _ =>
   palt (pmap (fun b => PVNum (NFloat b)) (pdouble bs)) (fun _ =>
-        pmap PVStr (pstring bs))))))).
+  (* after the fix: `double` reads `inf` only without a sign; `-inf` (what a literal overflowing to negative infinity
+     prints as) is value(Float64(NEG_INFINITY), preceded(char('-'), tag_no_case("inf"))) *)
+  palt (pmap (fun _ => PVNum (NFloat F_NEG_INF)) (pdo (r, _) <- pchar 45 bs; ptag_no_case [105; 110; 102] r)) (fun _ =>
+        pmap PVStr (pstring bs)))))))).
 
 Definition expr_paths (root_predicate : bool) (bs : list N) : pres (list path) :=
   pdo (r1, pre) <- palt (pmap (fun _ => PRoot) (pchar 36 bs))
